@@ -212,10 +212,14 @@ impl Screen {
         self.dirty.extend(0..lines);
 
         if lines < self.lines {
-            self.save_cursor();
-            self.cursor_position(Some(0), Some(0));
-            self.delete_lines(Some(self.lines - lines)); // Drop from the top.
-            self.restore_cursor();
+            // Drop from the top: the remaining rows move up.
+            let dropped = self.lines - lines;
+            let old_lines = self.lines;
+            self.buffer = std::mem::take(&mut self.buffer)
+                .into_iter()
+                .filter(|(y, _)| *y >= dropped && *y < old_lines)
+                .map(|(y, line)| (y - dropped, line))
+                .collect();
         }
 
         if columns < self.columns {
